@@ -1124,6 +1124,17 @@ class Interp:
             return Opaque(nm)
         if nm in ('isnan', 'isinf', 'isfinite') and args and concrete(args[0]) is not None:
             return nm == 'isfinite'
+        if nm == 'log1p' and args and is_num(args[0]):
+            return X.fn('log', X.ONE + to_node(args[0]))
+        if nm == 'ldexp' and len(args) == 2 and is_num(args[0]) and is_num(args[1]):
+            return to_node(args[0]) * X.fn('exp', to_node(args[1]) * X.fn('log', X.const(2)))
+        if nm == 'frexp' and len(args) == 2 and is_num(args[0]) and isinstance(args[1], Ref):
+            self._frexp_n = getattr(self, '_frexp_n', 0) + 1
+            ex = X.atom(f'frexp_exponent_{self._frexp_n}')
+            args[1].frame.vars[args[1].name] = ex
+            return to_node(args[0]) * X.fn('exp', -ex * X.fn('log', X.const(2)))
+        if nm == 'atan2' and len(args) == 2 and is_num(args[0]) and is_num(args[1]):
+            return X.fn('atan2', to_node(args[0]), to_node(args[1]))
         if nm == 'copysign' and len(args) == 2 and is_num(args[0]) and is_num(args[1]):
             return X.fn('abs', to_node(args[0])) * X.fn('sign', to_node(args[1]))      # for a non-zero second argument (signed zeros are the class domain's business)
         if nm in ('spherical_jn', 'spherical_yn') and args and isinstance(concrete(args[0]), int) and len(args) >= 2 and is_num(args[1]):
